@@ -121,6 +121,10 @@ class Translator:
                     elif isinstance(s, ast.Expr):
                         v = s.value
                         if isinstance(v, ast.Call) and isinstance(v.func, ast.Attribute) and \
+                                isinstance(v.func.value, ast.Name) and v.func.value.id == "self" and \
+                                v.func.attr in self.cfg.get("self_methods", {}):
+                            add("self")
+                        elif isinstance(v, ast.Call) and isinstance(v.func, ast.Attribute) and \
                                 isinstance(v.func.value, ast.Name) and v.func.attr in ("append", "pop"):
                             add(v.func.value.id)
                         elif isinstance(v, ast.Yield):
@@ -305,6 +309,10 @@ class Translator:
         raise Unsupported("expression %s" % ast.dump(e))
 
     def cond(self, e, scope):
+        for f in self.cfg.get("conds", []):
+            r = f(self, e, scope)
+            if r is not None:
+                return r
         if isinstance(e, ast.BoolOp):
             op = " && " if isinstance(e.op, ast.And) else " || "
             return "(" + op.join(self.cond(v, scope) for v in e.values) + ")"
@@ -353,6 +361,10 @@ class Translator:
         raise Unsupported("truthiness of kind %s" % k)
 
     def iter_list(self, e, scope):
+        for f in self.cfg.get("iterables", []):
+            r = f(self, e, scope)
+            if r is not None:
+                return r
         if isinstance(e, ast.Call) and isinstance(e.func, ast.Name) and e.func.id == "range":
             args = [self.expr(a, scope) for a in e.args]
             if len(args) == 1:
@@ -405,6 +417,13 @@ class Translator:
                 if not self.generator or v.value is None:
                     raise Unsupported("yield")
                 return sp + "let _out := _out ++ [%s] in\n" % self.expr(v.value, scope), scope, []
+            if isinstance(v, ast.Call) and isinstance(v.func, ast.Attribute) and isinstance(v.func.value, ast.Name) and \
+                    v.func.value.id == "self" and v.func.attr in self.cfg.get("self_methods", {}) and not v.keywords:
+                # a call of another (already translated) procedure of the same object: self := m self args
+                m = self.cfg["self_methods"][v.func.attr]
+                if callable(m):            # custom rendering of the call (must fail closed itself)
+                    return sp + "let self := %s in\n" % m(self, v, scope), scope, []
+                return sp + "let self := %s self %s in\n" % (m, " ".join(self.expr(a, scope) for a in v.args)), scope, []
             if isinstance(v, ast.Call) and isinstance(v.func, ast.Attribute) and isinstance(v.func.value, ast.Name):
                 x = v.func.value.id
                 if x not in scope:
@@ -506,12 +525,19 @@ class Translator:
         body = list(node.body)
         if body and isinstance(body[0], ast.Expr) and isinstance(body[0].value, ast.Constant):
             body = body[1:]
-        params = [a.arg for a in node.args.args]
+        if cfg.get("body_slice"):
+            lo, hi = cfg["body_slice"]
+            if hi is not None and hi < 0:
+                hi = len(body) + hi
+            if len(body) < (hi if hi is not None else lo):
+                raise Unsupported("function body shorter than expected")
+            body = body[lo:hi]
+        params = [a.arg for a in node.args.args] + ([node.args.kwarg.arg] if node.args.kwarg and cfg.get("kwarg") else [])
         want = [p for p, _ in cfg["params"]]
         missing = [p for p in params if p not in want and p not in cfg.get("ignore_params", [])]
         if missing or [p for p in want if p not in params]:
             raise Unsupported("parameters changed: source %s, expected %s" % (params, want))
-        if node.args.vararg or node.args.kwarg or node.args.kwonlyargs:
+        if node.args.vararg or node.args.kwonlyargs or (node.args.kwarg and node.args.kwarg.arg != cfg.get("kwarg")):
             raise Unsupported("star parameters")
         defaults = {a.arg: d for a, d in zip(node.args.args[len(node.args.args) - len(node.args.defaults):], node.args.defaults)}
         for p, d in cfg.get("defaults", {}).items():
@@ -523,6 +549,13 @@ class Translator:
         tail_only = (not self.generator and len(rets) == 1 and body and body[-1] is rets[0])
         scope = set(want)
         text = "Definition %s %s : %s :=\n" % (cfg["name"], " ".join("(%s : %s)" % (cname(p), t) for p, t in cfg["params"]), cfg["ret"])
+        tail = ""
+        if cfg.get("recursive_fuel"):
+            # a procedure that calls itself: structural recursion on an explicit fuel argument; running out of
+            # fuel returns self unchanged (the theorem about it states how much fuel suffices)
+            text = "Fixpoint %s (fuel : nat) %s : %s :=\n  match fuel with\n  | O => self\n  | S fuel =>\n" % (
+                cfg["name"], " ".join("(%s : %s)" % (cname(p), t) for p, t in cfg["params"]), cfg["ret"])
+            tail = "  end.\n"
         for n, v in cfg.get("prebind", {}).items():
             text += "  let %s := %s in\n" % (cname(n), v)
             scope.add(n)
@@ -537,7 +570,7 @@ class Translator:
             for s in body:
                 p, scope, _ = self.stmt(s, scope, None, "  ")
                 pre += p
-            return text + pre + "  self.\n"
+            return text + pre + ("  self\n" + tail if tail else "  self.\n")
         if tail_only:
             self.flagmode = False
             pre = ""
